@@ -18,7 +18,7 @@ import numpy as np
 from z3 import And, BoolVal, Function, Int, IntSort, Real, RealSort
 
 from vf import bounded as B
-from vf.common import mk_scores, new_exec, run_method
+from vf.common import multi_path_meta, mk_scores, new_exec, run_method
 from vf.engine import Axis, Obj, Oblig, Path, T, same_size, toI, toR
 from vf.proof import prove
 
@@ -120,7 +120,7 @@ def build_one(cls, form, mshape, sample_cls=None):
         obs.append(Oblig(f"C14/{name}{tag}", hyps, goal, kind, ("C14",), dict({"key": f"C14/{name}"}, **(meta or {}))))
     outs = run_method(ex, cls, "bootstrap_metric", me, [metric], {"config": cfg, "threshold": kwv}, path=path)
     live = [o for o in outs if not o.raised]
-    ob("bootstrap_metric/single-normal-path", BoolVal(len(live) == 1 and len(outs) == 1), [], "post")
+    ob("bootstrap_metric/single-normal-path", BoolVal(len(live) == 1 and len(outs) == 1), [], "post", multi_path_meta(outs))
     if len(live) != 1:
         return obs
     res, hy = live[0].value, live[0].path.pc
@@ -151,7 +151,7 @@ def build_one(cls, form, mshape, sample_cls=None):
     alpha = Real("alpha")
     outs2 = run_method(ex, cls, "bootstrap_ci", me, [metric], {"alpha": alpha, "config": cfg, "threshold": kwv}, path=Path(live[0].path.entries))
     live2 = [o for o in outs2 if not o.raised]
-    ob("bootstrap_ci/single-normal-path", BoolVal(len(live2) == 1 and len(outs2) == 1), [], "post")
+    ob("bootstrap_ci/single-normal-path", BoolVal(len(live2) == 1 and len(outs2) == 1), [], "post", multi_path_meta(outs2))
     if len(live2) == 1 and len(state["ci_calls"]) == 1:
         c = state["ci_calls"][0]
         hy2 = live2[0].path.pc
